@@ -42,6 +42,13 @@ THEOREMS = [
     "PorepyVerif.C16.tpsa_robin_zero_stress_iff",
     "PorepyVerif.C16.tpsa_robin_face_disp",
     "PorepyVerif.C16.robin_not_translation_consistent",
+    "PorepyVerif.C16.faceOK_of_wf",
+    "PorepyVerif.C16.tpsa_translation_solves_wf",
+    "PorepyVerif.C16.oneCell_K_ne_zero",
+    "PorepyVerif.C16.tpsa_translation_unique_one_cell_pos",
+    "PorepyVerif.C16.validate_ok",
+    "PorepyVerif.C16.validate_rejects_mixed",
+    "PorepyVerif.C16.ndof_counts_unknowns",
 ]
 LEAN_MODULES = ["PorepyVerif.C16.Props"]
 AUDIT = "PorepyVerif/C16/Audit.lean"
@@ -63,7 +70,10 @@ RULE = ("grids: 2-D Cartesian / structured triangles, 3-D Cartesian / structured
         "and the stress is checked on the other faces). Mixed systems whose matrix is singular (condition number > 1e11: one-cell-wide strips with free "
         "lateral faces, ~1-2% of the cases) are outside the nonsingularity hypothesis: checked for zero stress and zero residual only, counted in "
         "input_distribution. non-trivial = t != 0 and the grid has an interior face; distinct = distinct cases. "
-        "Generation is stratified: grid family x boundary mode cycle deterministically (roller faces on all four families in every run). "
+        "Corner strata (every 9th case each): single-cell grids, single-row grids, zero translation, and a malformed stream for the sanity checks of "
+        "discretize (Robin mixed with Dirichlet/Neumann on one face, positive / negative off-diagonal Robin weights, positive / negative off-diagonal "
+        "basis entries, non-unit basis diagonal) whose NotImplementedError / acceptance is compared with the model's `validate`; Tpsa.ndof (supported "
+        "and unsupported dimension) and assemble_matrix_rhs are compared on every case. Generation is stratified: grid family x boundary mode cycle deterministically (roller faces on all four families in every run). "
         "Tie: EVERY face of every grid (all ten matrices, rows of the face); cell residual at a random state for grids up to 8 (16) cells; the "
         "assembled system matrix div F - accum and right-hand-side matrix div R entry-wise for systems up to 14 (30) unknowns.")
 TRUSTED = [
@@ -150,14 +160,17 @@ def _dy(rng, lo, hi, den):
 
 _STRATA = [(k, m) for m in ("roll", "dir", "mixed", "roll", "rob") for k in ("cart2", "tri", "cart3", "tet")]
 _COUNT = {"n": 0}
+_MALFORMED = ["robmix", "robw_pos", "robw_neg", "basis_off_pos", "basis_diag", "basis_off_neg"]
 
 
 def gen_case(rng, tier):
     """Stratified: the grid family (2-D Cartesian / triangles, 3-D Cartesian / tetrahedra) and the boundary mode cycle
     deterministically, so that every run has component-wise mixed ('roller') faces on all four families."""
     big = tier == "thorough"
-    kind, mode = _STRATA[_COUNT["n"] % len(_STRATA)]
+    idx = _COUNT["n"]
+    kind, mode = _STRATA[idx % len(_STRATA)]
     _COUNT["n"] += 1
+    corner = {2: "single_row", 4: "malformed", 7: "single_cell", 8: "zero_t"}.get(idx % 9)
     if kind in ("cart2", "tri"):
         m = 5 if big else 3
         n = [rng.randint(1, m), rng.randint(1, m)]
@@ -165,6 +178,12 @@ def gen_case(rng, tier):
         m = 3 if big else 2
         n = [rng.randint(1, m) for _ in range(3)]
         while kind == "tet" and n[0] * n[1] * n[2] > (8 if big else 4):  # 6 tetrahedra per box
+            n[rng.randrange(3)] = 1
+    if corner == "single_cell" and kind in ("cart2", "cart3"):
+        n = [1] * len(n)
+    elif corner == "single_row":
+        n[rng.randrange(len(n))] = 1
+        if len(n) == 3:
             n[rng.randrange(3)] = 1
     phys = [rng.choice([Fraction(1, 2), Fraction(1), Fraction(1), Fraction(3, 2), Fraction(2), Fraction(4)]) for _ in n]
     gs = {"kind": {"cart2": "cart", "cart3": "cart"}.get(kind, kind), "n": n, "phys": [frac(p) for p in phys],
@@ -204,9 +223,27 @@ def gen_case(rng, tier):
     t = [_dy(rng, -4, 4, 4) if rng.random() < 0.85 else Fraction(0) for _ in range(nd)]
     if rng.random() < 0.1:
         t = [Fraction(rng.choice([-1, 1]) * 2 ** rng.randint(-6, 10)) for _ in range(nd)]
-    return {"grid": gs, "mu": frac(rng.choice([Fraction(1, 4), Fraction(1, 2), 1, 1, 2, 3, 8, 64])),
+    if corner == "zero_t":
+        t = [Fraction(0)] * nd
+    case = {"grid": gs, "mu": frac(rng.choice([Fraction(1, 4), Fraction(1, 2), 1, 1, 2, 3, 8, 64])),
             "lam": frac(rng.choice([Fraction(1, 8), 1, 1, 2, 10, 128])), "t": [frac(x) for x in t],
             "neu": neu, "rob": rob, "sseed": rng.randrange(10**6), "tier": tier}
+    if corner == "malformed":  # inputs of the sanity checks at the top of discretize (NotImplementedError branches)
+        sub = _MALFORMED[(idx // 9) % len(_MALFORMED)]
+        f = rng.choice(bf)
+        i, j = rng.sample(range(nd), 2)
+        bad = {"kind": sub}
+        if sub == "robmix":
+            k = rng.randint(1, nd - 1)
+            bad["robmix"] = [[f, sorted(rng.sample(range(nd), k))]]
+        elif sub in ("robw_pos", "robw_neg"):
+            bad["robw"] = [[i, j, f, frac(Fraction(rng.randint(1, 8), 4) * (1 if sub == "robw_pos" else -1))]]
+        elif sub in ("basis_off_pos", "basis_off_neg"):
+            bad["basis"] = [[i, j, f, frac(Fraction(rng.randint(1, 8), 4) * (1 if sub == "basis_off_pos" else -1))]]
+        else:  # basis_diag
+            bad["basis"] = [[i, i, f, frac(rng.choice([Fraction(0), Fraction(1, 2), Fraction(2), Fraction(-1)]))]]
+        case["bad"] = bad
+    return case
 
 
 # ----------------------------------------------------------------------------- the real code
@@ -242,12 +279,56 @@ def _setup(case):
         for d in range(nd):
             bc.robin_weight[d, d, f] = float(_F(al[d]))
             kinds[f][d] = {"rob": al[d]}
+    bad = case.get("bad") or {}
+    for f, ds in bad.get("robmix", []):
+        for d in ds:
+            bc.is_dir[d, f] = False
+            bc.is_neu[d, f] = False
+            bc.is_rob[d, f] = True
+            kinds[f][d] = {"rob": frac(bc.robin_weight[d, d, f])}
+    for i, j, f, v in bad.get("robw", []):
+        bc.robin_weight[i, j, f] = float(_F(v))
+    for i, j, f, v in bad.get("basis", []):
+        bc.basis[i, j, f] = float(_F(v))
+    chk = []
+    for f in range(nf):
+        off = [(i, j) for i in range(nd) for j in range(nd) if i != j]
+        chk.append({"isRob": [bool(bc.is_rob[d, f]) for d in range(nd)],
+                    "basisOff": [frac(bc.basis[i, j, f]) for i, j in off], "basisDiag": [frac(bc.basis[i, i, f]) for i in range(nd)],
+                    "robOff": [frac(bc.robin_weight[i, j, f]) for i, j in off]})
     mu, lam = float(_F(case["mu"])), float(_F(case["lam"]))
     C = pp.FourthOrderTensor(mu * np.ones(nc), lam * np.ones(nc))
     data = {pp.PARAMETERS: {KEY: {"fourth_order_tensor": C, "bc": bc}}, pp.DISCRETIZATION_MATRICES: {KEY: {}}}
-    with warnings.catch_warnings():
-        warnings.simplefilter("ignore")
-        pp.Tpsa(KEY).discretize(g, data)
+    discr = pp.Tpsa(KEY)
+    api = {"validate": "ok", "ndof": None, "ndof_bad": None, "assemble": None}
+    try:
+        api["ndof"] = int(discr.ndof(g))
+    except Exception as e:
+        api["ndof"] = {"err": type(e).__name__}
+    try:
+        class _G1:  # a grid of unsupported dimension
+            dim, num_cells = 1, nc
+        api["ndof_bad"] = int(discr.ndof(_G1()))
+    except Exception as e:
+        api["ndof_bad"] = {"err": type(e).__name__}
+    try:
+        discr.assemble_matrix_rhs(g, data)
+        api["assemble"] = "returned"
+    except Exception as e:
+        api["assemble"] = {"err": type(e).__name__}
+    base = {"g": g, "nd": nd, "nf": nf, "nc": nc, "rd": rd, "kinds": kinds, "mu": mu, "lam": lam, "sides": _sides(g), "bf": bfs,
+            "chk": chk, "api": api, "err": None}
+    try:
+        with warnings.catch_warnings():
+            warnings.simplefilter("ignore")
+            discr.discretize(g, data)
+    except NotImplementedError as e:
+        api["validate"] = {"err": type(e).__name__}
+        base["err"] = str(e)
+        if len(_CACHE) > 6:
+            _CACHE.clear()
+        _CACHE[key] = base
+        return base
     M = data[pp.DISCRETIZATION_MATRICES][KEY]
     # full system, as in the Tpsa class docstring / test_tpsa._assemble_matrices
     Fm = sps.block_array([
@@ -266,8 +347,7 @@ def _setup(case):
         for d in range(nd):
             if kinds[f][d] == "dir":
                 gv[d, f] = t[d]
-    s = {"g": g, "nd": nd, "nf": nf, "nc": nc, "rd": rd, "M": M, "F": Fm, "R": Rm, "div": div, "accum": accum, "t": t,
-         "gv": gv.ravel("F"), "kinds": kinds, "mu": mu, "lam": lam, "sides": _sides(g), "bf": bfs}
+    s = dict(base, M=M, F=Fm, R=Rm, div=div, accum=accum, t=t, gv=gv.ravel("F"))
     if len(_CACHE) > 6:
         _CACHE.clear()
     _CACHE[key] = s
@@ -287,15 +367,17 @@ def _rand_state(case, s):
 
 
 def _with_resid(case, s):
-    return s["nc"] <= RESID_MAX_CELLS.get(case.get("tier", "quick"), 8)
+    return s["err"] is None and s["nc"] <= RESID_MAX_CELLS.get(case.get("tier", "quick"), 8)
 
 
 def _with_matrix(case, s):
-    return s["nc"] * (s["nd"] + s["rd"] + 1) <= MATRIX_MAX_UNKNOWNS.get(case.get("tier", "quick"), 14)
+    return s["err"] is None and s["nc"] * (s["nd"] + s["rd"] + 1) <= MATRIX_MAX_UNKNOWNS.get(case.get("tier", "quick"), 14)
 
 
 def impl_run(case):
     s = _setup(case)
+    if s["err"] is not None:
+        return {"api": s["api"], "rows": None, "offpattern": 0.0, "res": None, "A": None, "B": None}
     nd, nf, nc, rd, M = s["nd"], s["nf"], s["nc"], s["rd"], s["M"]
     Fd, Rd = s["F"].toarray(), s["R"].toarray()
     Fr, Rr = Fd.copy(), Rd.copy()  # remainders: everything not read below must be zero
@@ -313,7 +395,7 @@ def impl_run(case):
             Rr[rw, gcols] = 0
         rows_out.append(tab)
     off = max(float(np.abs(Fr).max(initial=0.0)), float(np.abs(Rr).max(initial=0.0)))
-    out = {"rows": rows_out, "offpattern": off, "res": None, "A": None, "B": None}
+    out = {"api": s["api"], "rows": rows_out, "offpattern": off, "res": None, "A": None, "B": None}
     if _with_matrix(case, s):
         out["A"] = [[float(v) for v in row] for row in (s["div"] @ s["F"] - s["accum"]).toarray()]
         out["B"] = [[float(v) for v in row] for row in (s["div"] @ s["R"]).toarray()]
@@ -338,9 +420,14 @@ def _face_op(s, f, extra=None):
     return op
 
 
+N_API = 4
+
+
 def model_ops(case):
     s = _setup(case)
-    ops = [dict(_face_op(s, f), op="face", dim=s["nd"]) for f in range(s["nf"])]
+    ops = [{"op": "validate", "faces": s["chk"]}, {"op": "ndof", "dim": s["nd"], "nc": s["nc"]}, {"op": "ndof", "dim": 1, "nc": s["nc"]},
+           {"op": "assemble_matrix_rhs"}]
+    ops += [dict(_face_op(s, f), op="face", dim=s["nd"]) for f in range(s["nf"])]
     if _with_resid(case, s):
         u, rr, p, gb = _rand_state(case, s)
         g = s["g"]
@@ -360,13 +447,17 @@ def model_ops(case):
 def model_decode(outs, case):
     s = _setup(case)
     nf = s["nf"]
+    api = {"validate": outs[0], "ndof": outs[1], "ndof_bad": outs[2], "assemble": outs[3]}
+    outs = outs[N_API:]
+    if isinstance(api["validate"], dict):  # the model rejects the parameters: nothing else is defined
+        return {"api": api, "rows": None, "offpattern": 0.0, "res": None, "A": None, "B": None}
     bad = [o for o in outs if isinstance(o, dict) and "err" in o]
     if bad:
         return {"driver_error": bad[0]}
     rest = outs[nf:]
     res = next((o["res"] for o in rest if "res" in o), None)
     mat = next((o for o in rest if "A" in o), None)
-    return {"rows": [o["rows"] for o in outs[:nf]], "offpattern": 0.0, "res": res,
+    return {"api": api, "rows": [o["rows"] for o in outs[:nf]], "offpattern": 0.0, "res": res,
             "A": mat["A"] if mat else None, "B": mat["B"] if mat else None}
 
 
@@ -379,6 +470,12 @@ def compare(impl, model, case):
         return f"impl_run crashed: {impl['harness_exc']}"
     if "driver_error" in model:
         return f"driver error: {model['driver_error']}"
+    from harness.common import deep_compare
+    d = deep_compare(impl.get("api"), model.get("api"), "api")
+    if d:
+        return f"parameter validation / ndof / assemble_matrix_rhs: {d}"
+    if impl["rows"] is None or model["rows"] is None:
+        return None if impl["rows"] is None and model["rows"] is None else "discretize raised on one side only"
     if len(impl["rows"]) != len(model["rows"]):
         return f"number of faces {len(impl['rows'])} vs {len(model['rows'])}"
     names = None
@@ -433,6 +530,20 @@ def oracle(case):
     import scipy.sparse.linalg as spla
 
     s = _setup(case)
+    bad = case.get("bad") or {}
+    unsupported = bool(bad.get("robmix")) or any(_F(v) > 0 for *_, v in bad.get("robw", [])) or any(
+        (_F(v) > 0 if i != j else _F(v) != 1) for i, j, _, v in bad.get("basis", []))
+    if s["api"]["ndof"] != s["nc"] * (s["nd"] + s["rd"] + 1):
+        return {"what": f"Tpsa.ndof returns {s['api']['ndof']} for a {s['nd']}-d grid with {s['nc']} cells; the system has "
+                        f"{s['nc'] * (s['nd'] + s['rd'] + 1)} unknowns", "key": "ndof-wrong"}
+    if s["err"] is not None:
+        if unsupported:
+            return None
+        return {"what": f"discretize raised NotImplementedError ({s['err']}) for supported boundary data; bad={bad}", "key": "discretize-raised"}
+    if unsupported:
+        return {"what": f"discretize accepted boundary data it documents as not implemented: {bad}", "key": "unsupported-bc-accepted"}
+    if bad.get("robmix"):
+        return None
     g, nd, nf, nc, rd, M = s["g"], s["nd"], s["nf"], s["nc"], s["rd"], s["M"]
     t, gv, kinds = s["t"], s["gv"], s["kinds"]
     tinf = float(np.abs(t).max(initial=0.0))
@@ -529,11 +640,13 @@ def shrink_candidates(case):
         if gs["n"][k] > 1:
             n = list(gs["n"])
             n[k] -= 1
-            yield dict(case, grid=dict(gs, n=n), neu=[], rob=[])
+            yield {k: v for k, v in dict(case, grid=dict(gs, n=n), neu=[], rob=[]).items() if k != "bad"}
     if gs.get("pert", "0") != "0":
         yield dict(case, grid=dict(gs, pert="0"))
     if any(p != "1" for p in gs["phys"]):
         yield dict(case, grid=dict(gs, phys=["1"] * len(gs["phys"])))
+    if case.get("bad"):
+        yield {k: v for k, v in case.items() if k != "bad"}
     if case["rob"]:
         yield dict(case, rob=[])
     if case["neu"]:
@@ -557,8 +670,15 @@ def stats(cases, impl_outs):
 
     kinds, perts, modes, dims, roll_fam = Counter(), Counter(), Counter(), Counter(), Counter()
     nfaces = ncells = n_int = n_dir = n_neu = n_rob = n_roll = n_res = 0
+    corner = Counter()
     for c, o in zip(cases, impl_outs):
         gs = c["grid"]
+        corner["single_cell_grids"] += int(np.prod(gs["n"])) == 1 and gs["kind"] == "cart"
+        corner["single_row_or_column_grids"] += min(gs["n"]) == 1
+        corner["zero_translation"] += all(_F(x) == 0 for x in c["t"])
+        if c.get("bad"):
+            corner["malformed:" + c["bad"]["kind"]] += 1
+            corner["malformed_raising_NotImplementedError"] += isinstance(o, dict) and isinstance((o.get("api") or {}).get("validate"), dict)
         kinds[f"{gs['kind']}{len(gs['n'])}d"] += 1
         perts[gs.get("pert", "0")] += 1
         dims["x".join(map(str, gs["n"]))] += 1
@@ -579,7 +699,7 @@ def stats(cases, impl_outs):
             "faces_tied_to_model": nfaces, "cells": ncells, "faces_interior": n_int, "faces_dirichlet": n_dir, "faces_neumann": n_neu,
             "faces_rolling": n_roll, "faces_robin": n_rob, "cases_with_residual_tie": n_res,
             "cases_with_assembled_matrix_tie": sum(1 for o in impl_outs if isinstance(o, dict) and o.get("A") is not None),
-            "rolling_faces_by_family": dict(roll_fam),
+            "rolling_faces_by_family": dict(roll_fam), "corner_strata": dict(corner),
             "zero_translation_components": sum(1 for c in cases for x in c["t"] if _F(x) == 0),
             "oracle_solves": _RUNSTATS["solves"], "singular_mixed_systems_skipped": _RUNSTATS["singular_mixed"],
             "max_condition_number_solved": _RUNSTATS["max_cond"], "max_solve_error_rel": _RUNSTATS["max_solve_err"],
